@@ -35,6 +35,10 @@ pub const AMBIGUOUS: &[&str] = &[
     "/C/12345\nDEUTDEFF",
     "/12345678\nCITIBANK\nNEW YORK",
     "BARCLAYS\nLONDON",
+    // BIC-length words that are not BICs (a digit among the first six characters)
+    "12345678",
+    "BOX12345",
+    "00123456789",
 ];
 
 pub fn generate(shard: usize, src: &mut Src) -> OptCase {
@@ -44,18 +48,7 @@ pub fn generate(shard: usize, src: &mut Src) -> OptCase {
     let mut content = gen_valid(conc, src).content;
     if src.chance(1, 4) {
         content = src
-            .pick(&[
-                "DEUTDEFF",
-                "/ACC123\nDEUTDEFF",
-                "/ACC123\nJOHN DOE",
-                "1/JOHN DOE\n2/MAIN STREET",
-                "/ACC",
-                "JOHN DOE\nDEUTDEFFXXX",
-                "ACCOUNT123\nDEUTDEFF",
-                "240101USD100,",
-                "USD100,",
-                "/C/12345\nDEUTDEFF",
-            ])
+            .pick(AMBIGUOUS)
             .to_string();
     }
     let letter = match src.below(8) {
